@@ -96,7 +96,7 @@ func CheckC03(l *Lab, verifDir string) int {
 	id := 0
 	for _, kind := range []string{"openid", "ntlm"} {
 		for _, mode := range []string{"roundrobin", "unsigned", "any", "signed"} {
-			for _, hl := range []string{"literal", "placeholder", "mixed-collision", "ipv6"} {
+			for _, hl := range []string{"literal", "placeholder", "mixed-collision", "ipv6", "short-port"} {
 				users := []string{"PORT"}
 				if kind == "ntlm" {
 					users = []string{"PORT", "", "xPORT"}
@@ -105,7 +105,7 @@ func CheckC03(l *Lab, verifDir string) int {
 					users = []string{"PORT", "xPORT"}
 				}
 				for _, u := range users {
-					if l.Quick() && hl == "ipv6" && mode != "roundrobin" {
+					if l.Quick() && (hl == "ipv6" || hl == "short-port") && mode != "roundrobin" {
 						continue
 					}
 					cfgs = append(cfgs, c03Cfg{id, kind, mode, hl, u})
@@ -159,6 +159,7 @@ func c03One(l *Lab, rep *Report, idp *IdP, c c03Cfg) {
 	port := fmt.Sprint(a.Port)
 	user := strings.Replace(c.User, "PORT", port, 1)
 	var hosts []string
+	var extraReq [][2]string
 	switch c.HostList {
 	case "literal":
 		hosts = []string{a.Addr(), other.Addr()}
@@ -167,6 +168,17 @@ func c03One(l *Lab, rep *Report, idp *IdP, c c03Cfg) {
 	case "mixed-collision":
 		// the substituted entry of user PORT equals the literal first entry
 		hosts = []string{a.Addr(), "127.0.0.1:{{ preferred_username }}", "{{ preferred_username }}.example:3389"}
+	case "short-port":
+		// an entry with a four-digit port and a listener on that port with one more digit:
+		// a request for the longer port has the entry as a proper prefix
+		sp, lp := shortPortPair()
+		if sp == nil {
+			rep.Inconclusive("no short/long port pair free")
+			return
+		}
+		all = append(all, sp, lp)
+		hosts = []string{sp.Addr(), other.Addr()}
+		extraReq = append(extraReq, [2]string{"127.0.0.1", fmt.Sprint(lp.Port)})
 	case "ipv6":
 		if v6 == nil {
 			rep.Inconclusive("no ::1 listener")
@@ -304,6 +316,11 @@ func c03One(l *Lab, rep *Report, idp *IdP, c c03Cfg) {
 			c03Req{"lone-surrogate", 1, 0, pt, uint16(len(n) + 2), append(append([]byte(nil), n...), 0x00, 0xD8), true},
 			c03Req{"counts-0-0", 0, 0, pt, uint16(len(n)), n, false},
 			c03Req{"counts-2-3", 2, 3, pt, uint16(len(n)), n, false})
+	}
+	for _, e := range extraReq {
+		var pn int
+		fmt.Sscanf(e[1], "%d", &pn)
+		reqs = append(reqs, mkReq("port-with-extra-digit", e[0], uint16(pn)))
 	}
 	reqs = append(reqs, mkReq("decoy", "127.0.0.1", uint16(lo.Port)), mkReq("decoy", "127.0.0.1", uint16(hi.Port)), mkReq("unlisted", "127.0.0.1", 9), mkReq("unlisted", "evil.example", 3389))
 	for ri, rq := range reqs {
@@ -591,4 +608,33 @@ func c03Intruder(l *Lab, rep *Report, g *GW, c c03Cfg, fa *FakeAuth, hosts []str
 			}
 		}
 	}
+}
+
+// shortPortPair returns listeners on 127.0.0.1:p and 127.0.0.1:(10p+d) with a four-digit p.
+func shortPortPair() (short, long *Backend) {
+	mk := func(port int) *Backend {
+		l, e := net.Listen("tcp", fmt.Sprintf("127.0.0.1:%d", port))
+		if e != nil {
+			return nil
+		}
+		b := &Backend{L: l, Port: port, Host: "127.0.0.1", markers: map[string]bool{}}
+		b.cond = sync.NewCond(&b.mu)
+		go b.acceptLoop()
+		return b
+	}
+	for attempt := 0; attempt < 300; attempt++ {
+		k := atomic.AddUint32(&tripleCtr, 1)
+		p := 2001 + int((uint32(os.Getpid())*2246822519+k*3571)%4400)
+		s := mk(p)
+		if s == nil {
+			continue
+		}
+		l := mk(p*10 + int(k%10))
+		if l == nil {
+			s.Close()
+			continue
+		}
+		return s, l
+	}
+	return nil, nil
 }
